@@ -4,42 +4,6 @@
 From PV Require Import Proofs.SendBase Model.Send Spec.SendKnown.
 Open Scope N_scope.
 
-Ltac posnat := repeat match goal with |- context [Pos.to_nat ?p] =>
-  let v := eval vm_compute in (Pos.to_nat p) in change (Pos.to_nat p) with v end.
-Ltac run := cbn; repeat (progress posnat; cbn).
-Ltac eqbs := repeat rewrite N.eqb_refl; cbn [andb]; try reflexivity.
-Ltac w16_ok := unfold w16, be16, hi8, lo8; cbn [nth]; rewrite be16_hi_lo by assumption; apply N.eqb_refl.
-Ltac oks := unfold hi8, lo8, u8; ok_list.
-(* the checksum bytes are atoms while the decoder is evaluated *)
-Ltac abs_cks := repeat match goal with
-  | |- context [u8 (N.shiftr (checksum ?x) 8)] => let k := fresh "ck" in set (k := u8 (N.shiftr (checksum x) 8))
-  | |- context [u8 (checksum ?x)] => let k := fresh "ck" in set (k := u8 (checksum x))
-  | |- context [u8 (N.shiftr (ip4_calc_checksum ?x) 8)] => let k := fresh "ck" in set (k := u8 (N.shiftr (ip4_calc_checksum x) 8))
-  | |- context [u8 (ip4_calc_checksum ?x)] => let k := fresh "ck" in set (k := u8 (ip4_calc_checksum x))
-  end.
-Ltac unabs := repeat match goal with k := _ |- _ => subst k end.
-Ltac ip4_cks := unfold ip4_hdr_cks_ok; run; unabs; apply verifiesb_true;
-  match goal with |- verifies ?L =>
-    let p := eval cbn [set_nth] in (set_nth 10 0 (set_nth 11 0 L)) in
-    change (verifies (ip4_store_checksum p)) end;
-  apply ip4_header_verifies; [oks | reflexivity].
-Ltac icmp4_cks := unfold icmp4_cks_ok; run; unabs; apply verifiesb_true;
-  match goal with |- verifies ?L =>
-    let p := eval cbn [set_nth] in (set_nth 2 0 (set_nth 3 0 L)) in
-    change (verifies (icmp_set_checksum p (checksum p))) end;
-  apply icmp4_verifies; [oks | cbn [length]; lia | cbn [length]; lia | reflexivity | reflexivity].
-Ltac icmp6_cks := unfold icmp6_cks_ok; run; unabs; apply verifiesb_true;
-  match goal with |- verifies ?L =>
-    let S := eval cbn [firstn] in (firstn 16 L) in
-    let D := eval cbn [firstn skipn] in (firstn 16 (skipn 16 L)) in
-    let M := eval cbn [skipn] in (skipn 40 L) in
-    let P := eval cbn [set_nth] in (set_nth 2 0 (set_nth 3 0 M)) in
-    change (verifies (icmp6_pseudo S D (N.of_nat (length P)) ++
-                      icmp_set_checksum P (checksum (icmp6_pseudo S D (N.of_nat (length P)) ++ P))))
-  end;
-  apply icmp6_verifies;
-  [oks | oks | oks | reflexivity | reflexivity | cbn [length]; lia | cbn [length]; lia | reflexivity | reflexivity].
-
 (* ---------------------------------------------------------------- *)
 (* byte sweeps *)
 Lemma byte_sweep (P : N -> bool) :
@@ -187,20 +151,19 @@ Proof.
 Qed.
 
 (* ---------------------------------------------------------------- *)
-(* ICMP6SendNeighbourSolicitation: well-formed NS except that the link-layer option
-   carries type 2 (Target LLA) instead of 1 (Source LLA): wf_ns_gen 2 holds for all inputs *)
-Lemma ns_partial c sm si dm di tg junk :
+(* ICMP6SendNeighbourSolicitation (option type 1 since fix 6b9f9d7) *)
+Lemma ns_wf c sm si dm di tg junk :
   mac_ok (host_mac c) -> mac_ok dm -> ip6_ok si -> ip6_ok di -> ip6_ok tg ->
   length junk = EthMaxSize ->
   exists fr, send_ns c (sm, si) (dm, di) tg junk = Ok [fr] /\
-    wf_ns_gen 2 (host_mac c) dm si di tg fr = true.
+    wf_ns (host_mac c) dm si di tg fr = true.
 Proof.
   intros H1 H2 H3 H4 H5 HJ.
   assert (HJ' : (86 <= length junk)%nat) by (rewrite HJ; unfold EthMaxSize; lia).
   destruct (split_at 86 junk HJ') as (j & rest & -> & Hj). clear HJ HJ'.
   unfold send_ns, icmp6_send_packet. destruct c as [hm hip hlla rm rip mtu]. cbn [host_mac a_ip a_mac fst snd] in *.
   pose proof (linklocal_agree di H4) as HLL.
-  unfold wf_ns_gen.
+  unfold wf_ns, wf_ns_gen.
   destruct (ll_unicast di || ll_multicast di);
   explode_ok hm H1; explode_ok dm H2; explode_ok si H3; explode_ok di H4; explode_ok tg H5;
   explode j Hj;
@@ -211,19 +174,6 @@ Proof.
   - apply andb_true_intro; split; [|icmp6_cks].
     unfold ndp_hop_ok. destruct (ip6_is_linklocal _) eqn:E; [|reflexivity].
     specialize (HLL eq_refl). discriminate.
-Qed.
-
-Lemma ns_refuted :
-  exists c sm si dm di tg junk fr,
-    mac_ok (host_mac c) /\ mac_ok dm /\ ip6_ok si /\ ip6_ok di /\ ip6_ok tg /\ length junk = EthMaxSize /\
-    send_ns c (sm, si) (dm, di) tg junk = Ok [fr] /\
-    wf_ns (host_mac c) dm si di tg fr = false /\
-    known_ns_opt_type (host_mac c) dm si di tg fr = true.
-Proof.
-  exists cfg0, (host_mac cfg0), (host_lla cfg0), [51;51;255;0;0;5], [255;2;0;0;0;0;0;0;0;0;0;1;255;0;0;5],
-    [254;128;0;0;0;0;0;0;0;0;0;0;0;0;0;5], (repeat 0 EthMaxSize). eexists.
-  repeat (split; [split; [reflexivity|oks]|]).
-  split; [reflexivity|]. split; [vm_compute; reflexivity|]. split; vm_compute; reflexivity.
 Qed.
 
 (* ---------------------------------------------------------------- *)
